@@ -178,10 +178,52 @@ def scenarios(ctx):
             for mode in ("whole", "rand"):
                 out.append({"kind": "bomb", "name": "bomb2/%s/%d/%s" % (tag, bomb, mode), "cfg": "respdecomp=1,ztime=1000000,bomb=%d" % bomb, "req": reqb,
                             "pieces": cuts(r, res, mode), "payload": pl, "valid": True, "compressed": outer, "framing": "cl", "close": False, "bomb": bomb})
+    # ---- request decompression (htp_config_set_request_decompression): one layer, the same driver, its own accounting callback
+    for name, ce, comp in CODINGS:
+        for pi, pl in enumerate(pls if not quick else pls[:4] + pls[-1:]):
+            body = comp(pl)
+            framing = r.choice(("cl", "chunked"))
+            reqm = frame(r, b"POST /up HTTP/1.1\r\nHost: h\r\nContent-Encoding: " + ce + b"\r\n", body, framing)
+            for mode in (("whole", "rand", "small-first", "bytes") if len(reqm) < 1500 else ("whole", "rand")):
+                valid = name in ("gzip", "x-gzip", "deflate-raw", "Gzip-case", "lzma")
+                out.append({"kind": "faithful", "side": "req", "name": "req/%s/p%d/%s/%s" % (name, pi, framing, mode), "cfg": "respdecomp=1,reqdecomp=1,ztime=1000000",
+                            "pieces": cuts(r, reqm, mode), "payload": pl, "valid": valid, "compressed": body, "framing": framing,
+                            "wrong_wrapper": not valid, "close": False})
+    for pl in (b"plain text, not compressed", b"\x1f\x8b\x08\x08\x00\x00\x00\x00\x00\x03nm\x00\x07" + bytes(r.randrange(256) for _ in range(60))):
+        for ce in (b"gzip", b"deflate"):
+            reqm = frame(r, b"POST /up HTTP/1.1\r\nHost: h\r\nContent-Encoding: " + ce + b"\r\n", pl, "cl")
+            for mode in ("whole", "rand"):
+                out.append({"kind": "passthrough", "side": "req", "name": "req/invalid/%s/%s" % (ce.decode(), mode), "cfg": "respdecomp=1,reqdecomp=1,ztime=1000000",
+                            "pieces": cuts(r, reqm, mode), "payload": pl, "valid": False, "compressed": pl, "framing": "cl", "close": False})
+    # request-side bombs, and a request body announced but request decompression left off (must arrive undecoded)
+    for bomb in (1000, 20000):
+        pl = b"\x00" * 3000000
+        body = gz(pl, 9)
+        reqm = frame(r, b"POST /up HTTP/1.1\r\nHost: h\r\nContent-Encoding: gzip\r\n", body, "cl")
+        for mode in ("whole", "rand"):
+            out.append({"kind": "bomb", "side": "req", "name": "req/bomb/%d/%s" % (bomb, mode), "cfg": "respdecomp=1,reqdecomp=1,ztime=1000000,bomb=%d" % bomb,
+                        "pieces": cuts(r, reqm, mode), "payload": pl, "valid": True, "compressed": body, "framing": "cl", "close": False, "bomb": bomb})
+    body = gz(b"not decoded when the option is off " * 10)
+    reqm = frame(r, b"POST /up HTTP/1.1\r\nHost: h\r\nContent-Encoding: gzip\r\n", body, "cl")
+    out.append({"kind": "faithful", "side": "req", "name": "req/option-off", "cfg": "respdecomp=1,ztime=1000000", "pieces": cuts(r, reqm, "rand"),
+                "payload": body, "valid": True, "compressed": body, "framing": "cl", "wrong_wrapper": False, "close": False})
     return out
 
 
 def script_of(sc, traces=None):
+    """side 'res' (default): the request whole, then the response in pieces; side 'req': the request in pieces (request decompression),
+    then a plain response. `traces` = the recorded inflate results, one entry per data call of the coded side, in order."""
+    if sc.get("side") == "req":
+        lines = ["conn new %s -" % sc["cfg"], "conn open", "conn zon"]
+        for i, p in enumerate(sc["pieces"]):
+            l = "conn req " + traffic.hx(p)
+            if traces is not None:
+                l += " " + traces[i]
+            lines.append(l)
+            if i == 0 or i == len(sc["pieces"]) - 1:
+                lines.append("conn dump")
+        lines += ["conn res " + traffic.hx(b"HTTP/1.1 200 OK\r\nContent-Length: 0\r\n\r\n"), "conn close", "conn dump", "conn destroy"]
+        return lines
     lines = ["conn new %s -" % sc["cfg"], "conn open", "conn zon", "conn req " + traffic.hx(sc["req"])]
     for i, p in enumerate(sc["pieces"]):
         l = "conn res " + traffic.hx(p)
@@ -224,15 +266,16 @@ def run(ctx, model_ok=True, proofs_broken=False):
         delivered = b""
         ends = 0
         msg_len = 0
+        coded = "conn req " if sc.get("side") == "req" else "conn res "
         for l, o in zip(lines, outs):
-            if l.startswith("conn res "):
+            if l.startswith(coded):
                 zt = "-"
                 if " zt=[" in o:
                     zt = o.split(" zt=[", 1)[1].rsplit("]", 1)[0]
                     stats["inflate_calls"] += zt.count(",") + 1
                 traces.append(zt)
         for e in cl.all_events(lines, outs):
-            if e.name == "response_body_data":
+            if e.name == ("request_body_data" if sc.get("side") == "req" else "response_body_data"):
                 if e.kind == "bytes":
                     delivered += e.data; stats["blocks"] += 1
                 elif e.kind == "null":
@@ -286,8 +329,9 @@ def run(ctx, model_ok=True, proofs_broken=False):
                 stale = sc["name"].startswith("bomb2/") and len(delivered) - bound < BUF
                 note("bomb-stale-flush" if stale else "bomb-over-bound", {"script": lines, "what": "%s: %d bytes delivered; bound max(%d, 2048 x %d) + %d = %d" % (
                     sc["name"], len(delivered), sc["bomb"], comp_len, BUF, bound)})
-        if t and int(t.get("sel", 0)) != len(delivered):
-            note("entity-len", {"script": lines, "what": "%s: entity_len=%s but %d bytes were delivered" % (sc["name"], t.get("sel"), len(delivered))})
+        elk = "el" if sc.get("side") == "req" else "sel"
+        if t and int(t.get(elk, 0)) != len(delivered):
+            note("entity-len", {"script": lines, "what": "%s: entity_len=%s but %d bytes were delivered" % (sc["name"], t.get(elk), len(delivered))})
     for sig, items in found.items():
         if sig in known:
             ctx.known_hits.append("%s (%s) x%d" % (sig, known[sig]["what_fails"][:160], len(items)))
